@@ -1,7 +1,7 @@
 (** The scheduler-level machine (coq/Machine): whole-library halves of C01 / C02 / C04 / C12.
     Statements only; proofs in Machine/MachineProofs.v. *)
 From Coq Require Import List Arith.
-From MT Require Import Lib.Interleave Machine.MachineModel Machine.MachineProofs.
+From MT Require Import Lib.Interleave Machine.MachineModel Machine.MachineProofs Machine.VictimModel Machine.VictimProofs.
 Import ListNotations.
 
 (** For every number of workers and threads and every schedule of machine moves (creations in both
@@ -30,6 +30,20 @@ Print Assumptions M_run_only_from_hand.
 Theorem M_parked_not_current : forall s t w, parked s t = true -> Inv s -> nth_error (cur s) w <> Some (Run t).
 Proof. exact parked_not_current. Qed.
 Print Assumptions M_parked_not_current.
+
+(** steal-victim selection of the default steal function: for every number of workers >= 2 the victim is a
+    valid worker other than the thief, and every other worker is the victim for some value of the random
+    source - no worker's run queue is unreachable for an idle worker (the fairness of the random source
+    itself is trusted) *)
+Theorem M_victim_valid : forall n rank r, 2 <= n -> rank < n -> r < n - 1 ->
+  exists v, victim n rank r = Some v /\ v < n /\ v <> rank.
+Proof. exact victim_valid. Qed.
+Print Assumptions M_victim_valid.
+
+Theorem M_victim_surjective : forall n rank v, 2 <= n -> rank < n -> v < n -> v <> rank ->
+  exists r, r < n - 1 /\ victim n rank r = Some v.
+Proof. exact victim_surjective. Qed.
+Print Assumptions M_victim_surjective.
 
 (** non-vacuity: a concrete schedule on 2 workers / 3 threads: main creates t1 child-first, worker 1
     steals main, t1 blocks (pop finds nothing, scheduler), main wakes t1 onto its own queue *)
